@@ -143,7 +143,7 @@ CONTEXTS = {
     "cond": lambda F: ["true", "?"] + F + [":", "0"],
     "array": lambda F: ["[", "0", ","] + F + ["]"],
 }
-KINDS = ["fn", "method", "static", "arrow", "fnexpr", "nfnexpr", "ctor", "getter"]
+KINDS = ["fn", "method", "static", "arrow", "fnexpr", "nfnexpr", "ctor", "getter", "fieldfn", "fieldfn-derived", "staticfieldfn", "fieldfn-with-ctor"]
 
 
 def frame_def(k, kind, body):
@@ -164,6 +164,15 @@ def frame_def(k, kind, body):
         return ["class", "K%d" % k, "{", NL, "constructor", "(", ")", "{", NL] + body + ["}", NL, "}", NL], ["new", "K%d" % k, "(", ")"], ["K%d" % k, "constructor", "new K%d" % k], "K%d" % k
     if kind == "getter":
         return ["const", "o%d" % k, "=", "{", NL, "get", "p%d" % k, "(", ")", "{", NL] + body + ["}", NL, "}", ";", NL], ["o%d" % k, ".", "p%d" % k], ["p%d" % k, "get p%d" % k], "o%d" % k
+    # functions held in class fields (compiled inside the synthesized or the explicit constructor / the class body)
+    if kind == "fieldfn":
+        return ["class", "F%d" % k, "{", NL, "ff%d" % k, "=", "(", ")", "=>", "{", NL] + body + ["}", ";", NL, "}", NL], ["new", "F%d" % k, "(", ")", ".", "ff%d" % k, "(", ")"], ["ff%d" % k, None], "F%d" % k
+    if kind == "fieldfn-derived":
+        return ["class", "G%d" % k, "{", "}", NL, "class", "F%d" % k, "extends", "G%d" % k, "{", NL, "ff%d" % k, "=", "function", "(", ")", "{", NL] + body + ["}", ";", NL, "}", NL], ["new", "F%d" % k, "(", ")", ".", "ff%d" % k, "(", ")"], ["ff%d" % k, None], "F%d" % k
+    if kind == "staticfieldfn":
+        return ["class", "F%d" % k, "{", NL, "static", "sf%d" % k, "=", "(", ")", "=>", "{", NL] + body + ["}", ";", NL, "}", NL], ["F%d" % k, ".", "sf%d" % k, "(", ")"], ["sf%d" % k, None], "F%d" % k
+    if kind == "fieldfn-with-ctor":
+        return ["class", "F%d" % k, "{", NL, "ff%d" % k, "=", "(", ")", "=>", "{", NL] + body + ["}", ";", NL, "constructor", "(", ")", "{", "}", NL, "}", NL], ["new", "F%d" % k, "(", ")", ".", "ff%d" % k, "(", ")"], ["ff%d" % k, None], "F%d" % k
     raise ValueError(kind)
 
 
